@@ -189,9 +189,51 @@ def check_cli_object_histories(ctx, rng):
                     break
 
 
+def check_cli_rewritten_inputs(ctx, rng):
+    """several command lines in one process that name the SAME path (and format), the file being rewritten between them: each
+    run reads the file as it is then — it equals the run of a fresh process on that content"""
+    import json as _json
+    import os
+    import tempfile
+    from .. import clitools, gen
+    for k in range(ctx.n(4, 30)):
+        fmt = ["json", "json", "yaml", "ini"][k % 4]
+        name = {"json": "input.json", "yaml": "input.yaml", "ini": "input.ini"}[fmt]
+        def content(j):
+            if fmt == "json":
+                return _json.dumps(gen.gen_shared_samples(rng) if j else [{"id": 1, "name": "x", "tags": ["a"]}])
+            if fmt == "yaml":
+                return "items:\n" + "".join("  - {k%d: %d, v%d: x}\n" % (j, i, j) for i in range(2))
+            return "[main]\nopt%d = 1\nname%d = x y\n[other]\nz%d = 2.5\n" % (j, j, j)
+        versions = [content(j) for j in range(rng.randint(2, 3))]
+        argv = ["-m", "Root", name] + (["-i", fmt] if fmt != "json" else []) + rng.choice([[], ["-f", "pydantic"], ["-s", "nested"]])
+        steps = []
+        for v in versions:
+            steps += [{"write": {name: v}}, {"argv": argv}]
+        with tempfile.TemporaryDirectory(prefix="j2m-c14-") as d:
+            try:
+                got = clitools.run_cli_rewrites(steps, d, ctx.repo)
+            except Exception as e:  # noqa
+                yield {"kind": "cli-rewrite-raises", "steps": steps, "observed": str(e)[-300:]}
+                continue
+        want = []
+        for v in versions:
+            with tempfile.TemporaryDirectory(prefix="j2m-c14-") as d:
+                clitools.write_files(d, {name: v})
+                rc, out, err = clitools.run_cli(argv, d, ctx.repo)
+                want.append({"ok": clitools.strip_header(out[:-1] if out.endswith("\n") else out)} if rc == 0 else {"err": "exit %d" % rc})
+        ctx.case(("cli-rewrite", fmt, repr(versions)), nontrivial=True)
+        for j, (a, b) in enumerate(zip(got, want)):
+            if ("ok" in a) != ("ok" in b) or ("ok" in a and a["ok"] != b["ok"]):
+                yield {"kind": "cli-input-history-dependent", "steps": steps, "call": j,
+                       "observed": {"in_one_process": a, "fresh_process": b}}
+                break
+
+
 def falsify(ctx):
     rng = ctx.rng("fals")
     yield from check_cli_object_histories(ctx, rng)
+    yield from check_cli_rewritten_inputs(ctx, rng)
     hists = [gen_history(rng) for _ in range(ctx.n(120, 2500))]
     singles = [strip(c) for h in hists for c in h]
     with ThreadPoolExecutor(max_workers=16) as ex:
@@ -231,6 +273,25 @@ def replay(ctx, hit):
             r = clitools.run_cli_sequence(hit["sequence"], d, ctx.repo)
         bad = [k for k, (a, b) in enumerate(zip(r["reused"], r["fresh_all"])) if a != b]
         return {"kind": "cli-object-history-dependent", "observed": {"calls": bad}} if bad else None
+    if hit.get("kind") in ("cli-input-history-dependent", "cli-rewrite-raises"):
+        import tempfile
+        from .. import clitools
+        steps = hit["steps"]
+        with tempfile.TemporaryDirectory(prefix="j2m-c14-") as d:
+            got = clitools.run_cli_rewrites(steps, d, ctx.repo)
+        state, j = {}, 0
+        for st in steps:
+            if "write" in st:
+                state.update(st["write"])
+                continue
+            with tempfile.TemporaryDirectory(prefix="j2m-c14-") as d:
+                clitools.write_files(d, state)
+                rc, out, err = clitools.run_cli(st["argv"], d, ctx.repo)
+            want = {"ok": clitools.strip_header(out[:-1] if out.endswith("\n") else out)} if rc == 0 else {"err": "exit %d" % rc}
+            if ("ok" in got[j]) != ("ok" in want) or ("ok" in want and got[j]["ok"] != want["ok"]):
+                return {"kind": "cli-input-history-dependent", "call": j, "observed": {"in_one_process": got[j], "fresh_process": want}}
+            j += 1
+        return None
     h = hit["history"]
     res = worker.run_in_fresh_process(h, None, ctx.repo, 600, "history")
     for i, (c, got) in enumerate(zip(h, res)):
